@@ -123,15 +123,21 @@ def judge(line, prior, new, touched):
     P = {repr(k): repr(v) for k, v in prior.items()}
     N = {repr(k): repr(v) for k, v in new.items()}
     T = set(repr(k) for k in touched)
-    for k in set(got) | set(P) | set(N):
+    bad = []
+    for k in sorted(set(got) | set(P) | set(N)):
         allowed = set()
         if k in T:
             allowed = {P.get(k, '<absent>'), N.get(k, '<absent>')}
         else:
             allowed = {P.get(k, '<absent>')}
         if got.get(k, '<absent>') not in allowed:
-            return 'key %s reads as %s; allowed: %s (%s by the operation)' % (k, got.get(k, '<absent>'), sorted(allowed), 'touched' if k in T else 'not touched')
-    return None
+            bad.append((k, got.get(k, '<absent>'), sorted(allowed), 'touched' if k in T else 'not touched'))
+    if not bad:
+        return None
+    # deterministic, and the most telling discrepancy first: a key or value that was never stored outranks a missing entry
+    # (the order of a set must not decide which witness class -- listed finding or not -- a recovered state falls into)
+    bad.sort(key=lambda b: (b[1] == '<absent>', b[0]))
+    return '; '.join('key %s reads as %s; allowed: %s (%s by the operation)' % b for b in bad)
 
 
 def klass_of(cid, op, effect, why):
